@@ -27,13 +27,13 @@ var longBatchItems = []string{
 
 // loopsCase: tokens of one input with the oracle table of the real parseStatement at every position
 type loopsCase struct {
-	toks   []token.Token
-	kinds  string
-	table  []string
-	dumps  map[int]string // statement dump per start position
-	ok     map[int]bool
-	stop   map[int]int
-	code   map[int]string
+	toks  []token.Token
+	kinds string
+	table []string
+	dumps map[int]string // statement dump per start position
+	ok    map[int]bool
+	stop  map[int]int
+	code  map[int]string
 }
 
 func codeNum(c string) int {
